@@ -491,6 +491,26 @@ func (p *pfFacts) absorb(c *Ctx, facts []condFact, depth int) {
 						}
 					}
 				}
+				// the predicate was handed the rest x[lo:] of a string: len(x[lo:]) ≥ k means len(x) ≥ lo + k
+				if pk := strings.TrimPrefix(k, "P:"); pk != k {
+					for i, q := range cl.Params {
+						if q.Name() != pk || i >= len(x.Common().Args) {
+							continue
+						}
+						sl, isSl := x.Common().Args[i].(*ssa.Slice)
+						if !isSl || sl.High != nil || sl.Low == nil || !isStringType(sl.X.Type()) {
+							continue
+						}
+						lo := termOf(sl.Low)
+						xk := collKey(sl.X)
+						for _, t := range ts {
+							if t.base == nil {
+								p.note(xk)
+								p.lenGE[xk] = append(p.lenGE[xk], term{lo.base, lo.k + t.k})
+							}
+						}
+					}
+				}
 			}
 			for k, ns := range sub.lenNE {
 				if nk, ok := substKey(k, cl, x.Common().Args); ok {
